@@ -66,6 +66,8 @@ pub enum SCmd {
     /// set timer t with range lo..hi milliseconds
     SetTimer(u8, u64, u64),
     CancelTimer(u8),
+    /// the handler takes this many milliseconds (a slow handler lets several deadlines pass at once)
+    Stall(u64),
 }
 
 #[derive(Clone, Debug, Serialize, Deserialize, PartialEq, Eq, Hash)]
@@ -135,6 +137,7 @@ impl LogActor {
                 SCmd::Send(to, v) => o.send(Id::from(self.table[*to % self.table.len()]), wire(*v)),
                 SCmd::SetTimer(t, lo, hi) => o.set_timer(*t, Duration::from_millis(*lo)..Duration::from_millis(*hi)),
                 SCmd::CancelTimer(t) => o.cancel_timer(*t),
+                SCmd::Stall(ms) => std::thread::sleep(Duration::from_millis(*ms)),
             }
         }
     }
@@ -398,6 +401,36 @@ pub fn judge(sc: &Scenario, r: &RunLog, missing: &mut Vec<String>) -> Result<(),
     Ok(())
 }
 
+/// Did some handler cancel or re-arm a timer whose upper deadline bound had passed by the time
+/// the handler returned (so that the runtime had two expired deadlines at once)?
+fn overdue_timer_cancelled_or_rearmed(log: &[LogEntry]) -> bool {
+    let mut armed: HashMap<(usize, u8), Instant> = HashMap::new();
+    for e in log {
+        if let Ev::Timeout(t) = e.ev {
+            armed.remove(&(e.actor, t));
+        }
+        let stall: u64 = e.cmds.iter().map(|c| if let SCmd::Stall(ms) = c { *ms } else { 0 }).sum();
+        let leaves_at = e.at + Duration::from_millis(stall);
+        for c in &e.cmds {
+            match c {
+                SCmd::SetTimer(t, _, hi) => {
+                    if armed.get(&(e.actor, *t)).map_or(false, |d| *d < leaves_at) {
+                        return true;
+                    }
+                    armed.insert((e.actor, *t), e.at + Duration::from_millis(*hi + stall));
+                }
+                SCmd::CancelTimer(t) => {
+                    if armed.remove(&(e.actor, *t)).map_or(false, |d| d < leaves_at) {
+                        return true;
+                    }
+                }
+                _ => {}
+            }
+        }
+    }
+    false
+}
+
 pub struct Runtime;
 impl SubCheck for Runtime {
     type Case = Scenario;
@@ -422,6 +455,7 @@ impl SubCheck for Runtime {
                         4 => (0..total, 0u32..50).prop_map(|(to, v)| SCmd::Send(to, v)),
                         3 => (0u8..2, 5u64..40, 0u64..20).prop_map(|(t, lo, d)| SCmd::SetTimer(t, lo, lo + d)),
                         2 => (0u8..2).prop_map(SCmd::CancelTimer),
+                        1 => (10u64..60).prop_map(SCmd::Stall),
                     ]
                 };
                 let script = (proptest::collection::vec(cmd(), 0..4), proptest::collection::vec(proptest::collection::vec(cmd(), 0..3), 1..4), proptest::collection::vec(proptest::collection::vec(cmd(), 0..3), 2))
@@ -482,6 +516,9 @@ impl SubCheck for Runtime {
         cov.label_if(timeouts > 0, "timer_fired");
         cov.label_if(actor_to_actor, "actor_to_actor_message");
         cov.label_if(cancels, "cancel_timer");
+        cov.label_if(r.log.iter().any(|e| e.cmds.iter().any(|c| matches!(c, SCmd::Stall(_)))), "slow_handler");
+        // a handler that cancels or re-arms a timer whose deadline had already passed when it ran
+        cov.label_if(overdue_timer_cancelled_or_rearmed(&r.log), "cancel_or_rearm_of_an_overdue_timer");
         cov.label_if(rearm, "re_arm");
         cov.label_if(sc.datagrams.iter().any(|d| d.3.is_none()), "garbage_datagram");
         cov.label_if(r.peer_rx.iter().any(|p| !p.is_empty()), "send_to_harness_peer");
@@ -495,7 +532,7 @@ impl SubCheck for Runtime {
         Ok(())
     }
     fn mandatory(&self) -> Vec<&'static str> {
-        vec!["timer_fired", "actor_to_actor_message", "cancel_timer", "re_arm", "garbage_datagram", "send_to_harness_peer", "large_datagram_handled(>8KiB)"]
+        vec!["timer_fired", "actor_to_actor_message", "cancel_timer", "re_arm", "garbage_datagram", "send_to_harness_peer", "large_datagram_handled(>8KiB)", "slow_handler", "cancel_or_rearm_of_an_overdue_timer"]
     }
 }
 
